@@ -26,7 +26,8 @@ META = {
              'xel values, scale 0 replaced and the pyramid recomputed thro'
              'ugh the same handle; huge: target chunk sizes 128 / 256 (reg'
              'ions of more than 2^23 voxels).'
-             " Round 14: the reference downscaler is constructed directly (not through get_downscaler's option handling)."),
+             " Round 14: the reference downscaler is constructed directly (not through get_downscaler's option handling)."
+             " Round 19: scale 0 written by the held handle, replaced through a separate handle, pyramid recomputed through the held one."),
     "trusted_base": ["the package's Downscaler applied to one whole array "
                      "(its correctness is C07's subject)",
                      "vlib/refs/pyramid_model.py for the must-succeed "
@@ -319,7 +320,19 @@ def check_case(ctx, case):
             vol2 = make_volume(dict(case, seed=case["seed"] + 7), info)
             if vol2.tobytes() == vol.tobytes():
                 vol2 = vol2[:, ::-1].copy()
-            ds.write_scale(pio2, scales[0], vol2)
+            if (case["seed"] // 3) % 2:
+                ds.write_scale(pio2, scales[0], vol2)
+            else:
+                # ... by another program: a separate handle on the directory
+                # writes the new volume, the held handle computes the pyramid
+                # (the held handle has itself written the full-resolution
+                # scale earlier, as the all-in-one conversion does)
+                ds.write_scale(pio2, scales[0], vol)
+                other = ds.open_dataset(d, {k: v for k, v in acc.items()
+                                            if k in ("flat", "gzip",
+                                                     "compresslevel")})
+                ds.write_scale(other, scales[0], vol2)
+                ctx.count("scale0_replaced_through_another_handle")
             try:
                 with np.errstate(all="ignore"):
                     dyadic_pyramid.compute_dyadic_scales(pio2, dscaler)
